@@ -390,7 +390,7 @@ impl Property for C16 {
 				rate1: gen_rate(&mut src),
 				rate2: gen_rate(&mut src),
 				ibs: src.pick(&[128usize, 64, 16, 256, 100]),
-				sound_rate: src.pick(&[44100u32, 48000, 8000, 22050]),
+				sound_rate: src.pick(&[44100u32, 48000, 8000, 22050, 96000, 192000]),
 				before: src.usize_in(0, 12),
 				param: src.f64_uniform(0.0, 1.0),
 			};
